@@ -307,7 +307,7 @@ def plan(tier, scale):
     if tier == "quick":
         return [{"kinds": ["threaded"], "n": int(14 * scale)} for _ in range(4)] + [{"kinds": ["pool"], "n": int(14 * scale)} for _ in range(4)] + \
                [{"kinds": ["forking"], "n": int(10 * scale)} for _ in range(3)]
-    return [{"kinds": [k_], "n": int(260 * scale)} for k_ in ("threaded", "pool", "forking") for _ in range(5)]
+    return [{"kinds": [k_], "n": int(160 * scale)} for k_ in ("threaded", "pool", "forking") for _ in range(5)]
 
 
 def run_shard(desc, seed, rec, tier):
